@@ -72,6 +72,8 @@ def gen_enum(rng):
     spec = {"values": vals}
     if rng.random() < 0.5:
         spec["missing"] = [rng.choice(["<?>", "unknown"]), rng.choice(["error", "name_warn"])]
+    if rng.random() < 0.1:
+        spec["user_marker"] = True      # an application's subclass that appends a mark to what super() returns
     return spec
 
 
@@ -427,6 +429,11 @@ def generate(rng, tier):
     if rng.random() < 0.5:
         inits.append({})
     objs = [gen_object(rng, n_enums, tier != "quick") for _ in range(rng.randint(2, 4))]
+    if any(o["kind"] == "recfmt" and o.get("types") for o in objs):
+        # (a record formatter cannot cut a cell that outgrows its fixed width - an input matter, s11.2:
+        # no marks where one of them shares the enum types)
+        for e in enums:
+            e.pop("user_marker", None)
     if rng.random() < 0.06 or any(o["kind"] == "pp" and "__pairs__" in json.dumps(o["value"]) for o in objs):
         # several values whose dict keys are equal across types (False / 0 / 0.0, True / 1 / 1.0) in one history
         for v in rng.sample(PP_VALUES[-6:], 2):
@@ -625,6 +632,39 @@ def generate(rng, tier):
                 {"op": "render", "obj": 1, "conf": conf, "no_color": rng.random() < 0.3, "palette": None, "rec": 0,
                  "how": rng.choice(["str", "lines"]), "late": False},
                 {"op": "task_drain", "task": 0}]
+    r_tail = rng.random()
+    if r_tail < 0.07 and live_conf:
+        # one value printed by the module's shared printer: read line by line, and - while that reader is in the
+        # middle of it - printed whole as well (the very same object, so also the same nested containers)
+        objs.append({"kind": "pp", "value": rng.choice([{"k": [1, 2, {"z": None}], "m": {"a": [3, [4, 5]], "b": "x"}},
+                                                        [[1, [2, [3, {"d": {"e": [6]}}]]], {"k": [7, 8]}]]),
+                     "fmt_json": False, "module_pp": True})
+        conf = rng.choice(sorted(live_conf))
+        ops += [{"op": "obj_new", "slot": 0, "spec": len(objs) - 1},
+                {"op": "task_start", "task": 0, "obj": 0, "conf": conf, "no_color": rng.random() < 0.3, "palette": None,
+                 "rec": 0, "late": False},
+                {"op": "task_step", "task": 0, "n": rng.randint(1, 5)},
+                {"op": "render", "obj": 0, "conf": conf, "no_color": rng.random() < 0.3, "palette": None, "rec": 0,
+                 "how": rng.choice(["str", "str", "plain"]), "late": False},
+                {"op": "task_drain", "task": 0}]
+    elif r_tail < 0.14:
+        # a palette kept in sync with the global configuration, used before and after the global configuration
+        # is replaced by another one
+        objs.append({"kind": "pp", "value": rng.choice(PP_VALUES[:6]), "fmt_json": rng.random() < 0.3, "module_pp": False})
+        pal = rng.choice([{"cls": "PPPalette", "synced": True}, {"cls": "altpp", "synced": True}])
+        ops += [{"op": "conf_new", "slot": 0, "init": rng.randrange(len(inits)), "no_color": False},
+                {"op": "conf_global", "slot": 0},
+                {"op": "obj_new", "slot": 0, "spec": len(objs) - 1},
+                {"op": "render", "obj": 0, "conf": "global", "no_color": False, "palette": pal, "rec": 0, "how": "str",
+                 "late": False},
+                {"op": "conf_new", "slot": 1, "init": rng.randrange(len(inits)), "no_color": False},
+                {"op": "conf_global", "slot": 1},
+                {"op": "render", "obj": 0, "conf": "global", "no_color": False, "palette": pal, "rec": 0,
+                 "how": rng.choice(["str", "lines"]), "late": False},
+                # ... and back to the first one (which has met this palette class before)
+                {"op": "conf_global", "slot": 0},
+                {"op": "render", "obj": 0, "conf": "global", "no_color": False, "palette": pal, "rec": 0,
+                 "how": "str", "late": False}]
     return {"enums": enums, "inits": inits, "objs": objs, "ops": ops,
             "id_policy": rng.choice(["always", "always", "coin", "never"])}
 
